@@ -27,6 +27,7 @@ from translate import run_translators  # noqa: E402
 import fingerprint  # noqa: E402
 
 DEFAULT_SEED = 20260926
+ESCALATION_BUDGET_S = 110     # an extra generator stream starts only if everything before it took less than this per stream
 MAX_REPORTED = 6
 
 
@@ -140,6 +141,7 @@ def check_property(prop_id, tier, seed):
         per_kind = {}
         harness_errors = []
         failures = []        # (kind, case, obs, how)
+        streams_run = 0
         corr_broken = []     # (kind name, count, example case, obs): implementation left the impl-model, property clauses still hold
         if ok_model:
             kinds = {k.name: k for k in mod.KINDS}
@@ -151,18 +153,24 @@ def check_property(prop_id, tier, seed):
                     d = json.loads(p.read_text())
                     if d.get('kind') in kinds:
                         corpus_cases.append((kinds[d['kind']], d['case']))
-            for kind in mod.KINDS:
-                rng = core.make_rng(seed, f'{prop_id}/{kind.name}')
-                cases = [c for (k, c) in corpus_cases if k is kind] + list(kind.gen(rng, tier))
-                if escalate and tier == 'quick' and not getattr(kind, 'no_escalation', False):
-                    # the anchored sources changed since the fingerprints were recorded: two more generator streams
-                    seen_h = {core.case_hash(c) for c in cases}
-                    for extra in (1, 2):
-                        for c in kind.gen(core.make_rng(seed + extra, f'{prop_id}/{kind.name}'), tier):
-                            h = core.case_hash(c)
-                            if h not in seen_h:
-                                seen_h.add(h)
-                                cases.append(c)
+            # stream 0 = the ordinary generators.  When the anchored sources changed since the fingerprints were recorded
+            # (escalation), up to two more generator streams follow, time-boxed, and only while nothing has been found yet.
+            plan = [(0, k) for k in mod.KINDS]
+            if escalate and tier == 'quick':
+                plan += [(st, k) for st in (1, 2) for k in mod.KINDS if not getattr(k, 'no_escalation', False)]
+            seen_h = set()
+            t_streams = time.time()
+            for stream, kind in plan:
+                if stream > 0 and (failures or corr_broken or time.time() - t_streams > ESCALATION_BUDGET_S * stream):
+                    break
+                streams_run = max(streams_run, stream + 1)
+                rng = core.make_rng(seed + stream, f'{prop_id}/{kind.name}')
+                cases = ([c for (k, c) in corpus_cases if k is kind] if stream == 0 else [])
+                for c in kind.gen(rng, tier):
+                    h = core.case_hash([kind.name, c])
+                    if h not in seen_h:
+                        seen_h.add(h)
+                        cases.append(c)
                 if not cases:
                     continue
                 tk = time.time()
@@ -188,7 +196,7 @@ def check_property(prop_id, tier, seed):
                     corr_broken.append((kind.name, len(kind._corr_only), cases[i0], obs[i0]))
                 if cases:
                     samples.append(kind.sample(cases[len(cases) // 2], obs[len(cases) // 2]) | {'kind': kind.name})
-                per_kind[kind.name] = {'cases': len(cases), 'nontrivial_distinct': nt, 'failing': len([f for f in failures if f[0] is kind]),
+                per_kind[kind.name if stream == 0 else f'{kind.name}#stream{stream}'] = {'cases': len(cases), 'nontrivial_distinct': nt, 'failing': len([f for f in failures if f[0] is kind]),
                                        'wall_s': round(time.time() - tk, 1)}
         # extra property-level search / custom steps of the module
         if hasattr(mod, 'extra'):
@@ -255,7 +263,7 @@ def check_property(prop_id, tier, seed):
             'rule': '; '.join(f'{k.name}: {k.rule}' for k in mod.KINDS),
             'samples': samples[:6], 'traces_validated_against_impl': evaluations,
             'per_kind': per_kind, 'input_distribution': dict(sorted(hist.items())),
-            'tie': {'translators': ttie, 'c_tie_ran': ok_model}, 'notes': notes, 'changed_anchor_sources': changed_src, 'escalated': bool(escalate and tier == 'quick'),
+            'tie': {'translators': ttie, 'c_tie_ran': ok_model}, 'notes': notes, 'changed_anchor_sources': changed_src, 'escalated': bool(escalate and tier == 'quick'), 'generator_streams_run': streams_run,
             'build_s': round(t_model + t_prop, 1), 'exhaustive': bool(getattr(mod, 'EXHAUSTIVE', False)),
         }
         if coqchk is not None:
